@@ -19,7 +19,7 @@ MIN_NONTRIVIAL = {"quick": 400, "thorough": 4000}
 REQUIRED_FUNCTIONS = ["listener.py:BlackbirdListener.exitForloop", "listener.py:BlackbirdListener.enterForloop", "listener.py:BlackbirdListener.exitStatement"]
 FUNCTIONS = REQUIRED_FUNCTIONS
 REQUIRED_TAGS = ["loop-range", "loop-range-step", "loop-list", "loop-empty", "loop:int", "loop:float", "loop:bool", "loop:str",
-                 "neg:use-after-loop", "neg:wrong-type", "same-variable-twice", "body:mode", "body:index", "body:kwarg", "body:list"]
+                 "neg:use-after-loop", "neg:wrong-type", "same-variable-twice", "body:mode", "body:index", "body:kwarg", "body:list", "loopvar:underscore"]
 ASSUMPTIONS = ["the unrolling substitutes the reference value of each loop value, rendered as a bracketed literal of the declared type",
                "for negative cases any exception counts as 'refused'"]
 PH = "\x00"
@@ -59,6 +59,11 @@ def make_loop(rng, G, var, tags):
         hdr = "%d:%d" % (a, b)
         if rng.random() < 0.45:
             hdr += ":%d" % rng.randint(1, 4)
+        if rng.random() < 0.12:
+            # multi-digit bounds and steps
+            a = rng.choice([0, 7, 10, 95])
+            st = rng.choice([10, 12, 25, 100])
+            hdr = "%d:%d:%d" % (a, a + st * rng.randint(1, 4) + rng.randint(0, 9), st)
     else:
         n = rng.choice([1, 2, 2, 3, 4, 5])
         if vt == "int":
@@ -108,6 +113,14 @@ def build(rng, g):
         lines.append(G.statement(allow_sym=False))
     items = [("line", ln) for ln in lines]
     var = G.ident()
+    if rng.random() < 0.25:
+        # loop variable names using the whole NAME alphabet
+        for cand in (var + "_" + str(rng.randint(0, 9)), rng.choice(["i_", "mode_idx", "n_1", "x_", "a_b_c", "k__2"])):
+            if G.is_name(cand) and cand not in G.used:
+                var = cand
+                G.used.add(cand)
+                tags.add("loopvar:underscore")
+                break
     nloops = rng.choice([1, 1, 2])
     for li in range(nloops):
         if li == 1:
